@@ -98,6 +98,18 @@ CLAIMED = {
                 "NOT covered (stated): equality of results across dask schedulers / worker counts for the loaders as a whole - dask's own execution semantics are not encoded; shared mutable arrays written inside tasks.",
         "ref": "DESIGN.md §4 C10",
     },
+    "C18": {
+        "text": "PARTIAL (the numerical kernels are not decided): the Python code acryo wraps around the SVD and k-means kernels is executed on symbolic data. (A) real DaskPCA with da.linalg.svd as a contract stub: the matrix handed to the SVD is the column-centred data; "
+                "mean_, components_, singular_values_, explained_variance_(ratio_) are the column mean and the leading n of what the SVD returned; transform(Y) = (Y - mean_) Vt[:n]^T; inverse_transform; and, with the SVD contract instantiated in a solver-checked ring identity, "
+                "the projections of the training data and fit_transform equal U[:, :n] S[:n] (those of an exact SVD of the centred data). (B) real PcaClassifier with recording PCA / k-means stand-ins: the fitted and transformed rows are image_i * mask flattened in C order, "
+                "row i <-> image i; labels, split_clusters, predict, get_transform(labels=), transform(mask=False), get_bases follow that order. (C) real LoaderBase.classify on the stand-in loader of C03: stack row i = masked_difference(sub-tomogram of molecule i, quaternion i) of "
+                "ZNCC(template, mask, cutoff, tilt); classifier gets (stack, model.mask, n_components, n_clusters, seed); one label per molecule in molecule order in a new column; positions, orientations, other features and the source loader untouched. "
+                "(D) real masked_difference = Re ifftn((F(image*mask) - F(template*mask)) * wedge) voxel by voxel over an exact DFT with symbolic wedge weights.",
+        "note": "Trusted / assumed: the SVD CONTRACT (A = U diag(S) Vt, Vt Vt^T = I) - that LAPACK and dask's tall-skinny QR satisfy it, for every chunking, is NOT decided (compiled kernels behind FFI, no source/IR to execute); k-means ('clearly separated groups get distinct clusters') is NOT decided; "
+                "the randomized solver the real code selects for stacks with more than 500 features per image is outside; component signs are outside. Bounds: N x F up to 4x3 / 3x4, n_components <= 3, 3-8 images of <= 6 voxels, 4 molecules. "
+                "The replay oracle compares the installed library with numpy's exact SVD on small stacks (several chunkings) and classifies two planted groups.",
+        "ref": "DESIGN.md §5 / §11.8 (C18 was not-applicable at design time; the encodable part was built in the build round)",
+    },
     "C17": {
         "text": "fourier_shell_correlation executed on image pairs with symbolic voxels over an exact DFT (box sides in {1,2,4}), square roots opaque: every returned value is N/Sqrt(R) with N = Re sum F1 conj(F2) and R = sum|F1|^2 sum|F2|^2 over exactly the bins of shell floor(|f|/dfreq) (shells and DFT recomputed independently with rational arithmetic), symmetric in the inputs, N'=gN / R'=g^2R under a positive gain, N*N=R and N=power for identical inputs, freq=(i+1/2)dfreq. "
                 "Shell labels of the FSC alignment score compared on all 125 shapes in {1..5}^3. Loader-level FSC executed on the C09 stand-in loader: the correlated images are the two zero-normalised split halves times the mask, one column per split, explicit/default dfreq.",
@@ -137,7 +149,6 @@ CLAIMED = {
 
 NOT_APPLICABLE = {
     "C13": "decided by polars' compiled CSV/Parquet serialisers (decimal formatting, zstd, dtype inference): no source/IR to execute symbolically; a stub would assume the property",
-    "C18": "decided by LAPACK SVD through dask's tall-skinny QR and scikit-learn k-means: iterative floating-point kernels behind FFI; a contract stub of SVD makes the claim circular",
 }
 
 PENDING = {
